@@ -55,6 +55,7 @@ type Exec struct {
 	immutableFields map[string]bool // "pkgpath.T.f"
 	immutableHeaps  map[string]bool // heap names excluded from wholesale havoc
 	immutableViolations map[string]string
+	protected map[string]Protected // "pkgpath.T.f"
 	definingGhost map[string]bool
 	axiomNames []string
 	lemmaErrs  []string
@@ -72,7 +73,7 @@ func (x *Exec) pos(p token.Pos) string {
 		return ""
 	}
 	ps := x.fset.Position(p)
-	return fmt.Sprintf("%s:%d", strings.TrimPrefix(ps.Filename, "/repo/"), ps.Line)
+	return fmt.Sprintf("%s:%d", strings.TrimPrefix(ps.Filename, repoDir+"/"), ps.Line)
 }
 
 // Frame is one (possibly inlined) function activation.
@@ -328,6 +329,9 @@ func (x *Exec) step(st *State, fr *Frame, ins ssa.Instruction) {
 	case *ssa.Alloc:
 		x.doAlloc(st, v)
 	case *ssa.Store:
+		if pv := x.val(st, v.Addr); pv.prot != nil {
+			x.lockCheck(st, fr, pv.prot, true, v.Pos(), "write of "+pv.prot.field)
+		}
 		a := x.ptrAddr(st, fr, v.Addr, v.Pos())
 		st.store(a, x.term(st, v.Val))
 		if val := x.val(st, v.Val); val.fn != nil {
@@ -341,7 +345,18 @@ func (x *Exec) step(st *State, fr *Frame, ins ssa.Instruction) {
 		base := x.ptrAddr(st, fr, v.X, v.Pos())
 		stt := deref(v.X.Type())
 		f := stt.Underlying().(*types.Struct).Field(v.Field)
-		st.vals[v] = Val{addr: base.extend(pstep{field: v.Field, cont: stt}, f.Type()), typ: v.Type()}
+		res := Val{addr: base.extend(pstep{field: v.Field, cont: stt}, f.Type()), typ: v.Type()}
+		if pv := x.val(st, v.X); pv.prot != nil {
+			res.prot = pv.prot
+		}
+		if len(x.protected) > 0 {
+			if n, ok := stt.(*types.Named); ok && n.Obj().Pkg() != nil {
+				if pr, ok := x.protected[n.Obj().Pkg().Path()+"."+n.Obj().Name()+"."+f.Name()]; ok && base.kind == aStruct && len(base.path) == 0 {
+					res.prot = x.protInfoFor(st, base.root, stt, pr, f.Name())
+				}
+			}
+		}
+		st.vals[v] = res
 	case *ssa.Field:
 		xv := x.term(st, v.X)
 		st.vals[v] = Val{T: structField(v.X.Type(), xv, v.Field), typ: v.Type()}
@@ -498,8 +513,11 @@ func (x *Exec) doUnOp(st *State, fr *Frame, v *ssa.UnOp) {
 			}
 			a = refAddr(val.T, elem)
 		}
+		if val.prot != nil {
+			x.lockCheck(st, fr, val.prot, false, v.Pos(), "read of "+val.prot.field)
+		}
 		t := st.load(a)
-		res := Val{T: t, typ: v.Type()}
+		res := Val{T: t, typ: v.Type(), prot: val.prot}
 		if tf := typingFact(v.Type(), t); tf.S != "true" && (a.kind != aLocal) {
 			t = st.name(v.Name(), t)
 			res.T = t
@@ -603,6 +621,9 @@ func (x *Exec) doLookup(st *State, fr *Frame, v *ssa.Lookup) {
 }
 
 func (x *Exec) doMapUpdate(st *State, fr *Frame, v *ssa.MapUpdate) {
+	if pv := x.val(st, v.Map); pv.prot != nil {
+		x.lockCheck(st, fr, pv.prot, true, v.Pos(), "update of the map in "+pv.prot.field)
+	}
 	m := x.term(st, v.Map)
 	k := x.term(st, v.Key)
 	val := x.term(st, v.Value)
@@ -997,4 +1018,49 @@ func (x *Exec) floatOp(op token.Token, a, b T) T {
 	}
 	unsupported("float operator %s", op)
 	return T{}
+}
+
+// ---------------------------------------------------------------------------
+// Lock discipline: fields declared `protected ... by T.mu`.
+
+type protInfo struct {
+	mu        T // materialised address of the guarding mutex
+	exclusive bool
+	field     string
+}
+
+func (x *Exec) protInfoFor(st *State, root T, stt types.Type, pr Protected, fname string) *protInfo {
+	muName := pr.Mu[strings.LastIndexByte(pr.Mu, '.')+1:]
+	strct := stt.Underlying().(*types.Struct)
+	for i := 0; i < strct.NumFields(); i++ {
+		if strct.Field(i).Name() == muName {
+			a := &Addr{kind: aStruct, root: root, rootT: stt, typ: stt}
+			ma := a.extend(pstep{field: i, cont: stt}, strct.Field(i).Type())
+			return &protInfo{mu: x.materialize(st, Val{addr: ma}), exclusive: pr.Exclusive, field: pr.Field}
+		}
+	}
+	unsupported("protected: no field %s in %s", muName, stt)
+	return nil
+}
+
+func mstateOf(st *State, mu T) T {
+	return sel(st.heap("Gf mstate", arraySort(SInt, SInt)), mu)
+}
+
+// lockCheck: an access to a protected field needs the guarding mutex
+// (write or exclusive accesses: held exclusively; reads: held in any mode).
+func (x *Exec) lockCheck(st *State, fr *Frame, p *protInfo, write bool, pos token.Pos, what string) {
+	top := topFrame(fr)
+	if top.contract != nil && top.contract.Flags["nolockcheck"] {
+		return
+	}
+	ms := mstateOf(st, p.mu)
+	var goal T
+	if write || p.exclusive {
+		goal = eq(ms, mkInt(1))
+	} else {
+		goal = or(eq(ms, mkInt(1)), eq(ms, mkInt(2)))
+	}
+	x.addCheck(st, fr, "lock/held-at-access", goal, pos, what+" without holding the guarding mutex (exclusively where required)")
+	st.assume(goal)
 }
